@@ -331,8 +331,15 @@ impl W12 {
                 let kept: Vec<&String> = fa.iter().copied().filter(|t| must_stay.contains(t)).collect();
                 let contained = matches!(fam, Fam::Nest | Fam::Xml);
                 if !contained && kept != must_stay {
+                    // one narrow way this happens (known finding): a foreign map value that a tracked step had
+                    // overwritten and an earlier undo re-created as a copy; the copy counts as the undo manager's
+                    // own item, so the conflict test in ItemPtr::redo walks past it and an older tracked value is
+                    // restored on top of it
+                    let lost: Vec<&&String> = must_stay.iter().filter(|t| !kept.contains(*t)).collect();
+                    let restored_copy = undo && matches!(fam, Fam::Map) && !lost.is_empty() && lost.iter().all(|t| self.foreign_deleted_by_tracked.contains(**t));
+                    let sub = if restored_copy { ":foreign-map-value-restored-by-an-earlier-undo" } else { "" };
                     return Err((
-                        format!("{}-disturbs-foreign-elements", name),
+                        format!("{}-disturbs-foreign-elements{}", name, sub),
                         format!("{}: foreign elements before {:?}, after {:?} (all visible before {:?}, after {:?})", name, must_stay, kept, tb, ta),
                     ));
                 }
